@@ -63,15 +63,38 @@ def accessor_summary(db):
     return acc
 
 
-def check_owners(cx, rule, what, found, owners, why, get_name=lambda f: f.name):
+def _helper_of_owner(db, name, owners, depth=2, seen=None):
+    """`name` is a private helper of an owner: it has callers in the parsed program and every
+    one of them is an owner (or, recursively, such a helper).  This keeps the ownership rules
+    silent when a write is moved into a helper function called only by its owner."""
+    if db is None or depth < 0:
+        return False
+    seen = seen or set()
+    if name in seen:
+        return False
+    seen.add(name)
+    callers = set()
+    for f in db.all_funcs():
+        for (_b, _i, ev) in f.events():
+            if ev["e"] in ("call", "lambda") and ev["callee"] == name:
+                callers.add(f.name)
+    callers.discard(name)
+    if not callers:
+        return False
+    return all(owner_match(c, owners) or _helper_of_owner(db, c, owners, depth - 1, seen)
+               for c in callers)
+
+
+def check_owners(cx, rule, what, found, owners, why, get_name=lambda f: f.name, db=None):
     """found: list of (Func, ev, how). owners: set of allowed function names
-    (regexes allowed when they start with '^')."""
+    (regexes allowed when they start with '^').  With db given, a function all of whose
+    callers are owners is accepted as the owner's helper."""
     names = {}
     for f, ev, how in found:
         names.setdefault(get_name(f), []).append((f, ev, how))
     bad = 0
     for n, sites in sorted(names.items()):
-        ok = owner_match(n, owners)
+        ok = owner_match(n, owners) or _helper_of_owner(db, n, owners)
         f, ev, how = sites[0]
         cx.ob(rule, "%s <- %s" % (what, n), ok,
               detail=("%s of %s at %s (%s)" % (how, what, short(ev.get("loc")), f.inst))
